@@ -6,6 +6,7 @@ Line protocol for C18.  Segments are separated by `|`, blanks around separators 
 * point `a,b,c` (query points: **doubled** coordinates); point list `a,b,c;a,b,c` (empty = no point)
 * solid  `+x0,y0,z0,x1,y1,z1;-x0,…` (`+` add box, `-` carve box, mesh units), optionally prefixed by a pose
   `P:sx,sy,sz,fx,fy,fz,perm,tx,ty,tz@` (`perm` ∈ xyz|xzy|yxz|yzx|zxy|zyx, flips 0/1): the driver applies `Pose.solid`
+* polytope `H:nx,ny,nz,d;nx,ny,nz,d;…` (half-spaces `n·x < d`, mesh units) — accepted wherever a solid is
 * volumes `name=solid/name=solid`
 * nodes `id:a,b,c;…`, tree connectors `cid:node;…`, positioned connectors `cid:a,b,c;…`, faces `i,j,k;…`
 
@@ -84,9 +85,20 @@ def parseSolid (s : String) : Option Solid :=
     | _ => none
   else parseList ";" parseSBox s
 
-def parseVols (s : String) : Option (List (String × Solid)) :=
+def parseHalf (s : String) : Option HalfSpace := do
+  match ← intList? s with
+  | [a, b, c, d] => pure ⟨⟨a, b, c⟩, d⟩
+  | _ => none
+
+/-- the inside test of one volume: a box complex (optionally posed) or a convex polytope -/
+def parseInside (s : String) : Option Inside :=
+  let s := trim s
+  if s.startsWith "H:" then (parseList ";" parseHalf ((s.drop 2).toString)).map memPoly
+  else (parseSolid s).map mem
+
+def parseVols (s : String) : Option (List (String × Inside)) :=
   parseList "/" (fun t => match (trim t).splitOn "=" with
-    | [k, v] => (parseSolid v).map fun S => (trim k, S)
+    | [k, v] => (parseInside v).map fun S => (trim k, S)
     | _ => none) s
 
 def parseMode (s : String) : Option Mode :=
@@ -130,21 +142,21 @@ def run (cmd : String) (rest : String) : Option String :=
   let seg := (rest.splitOn "|").map trim
   match cmd, seg with
   | "mem", [S, pts] => do
-    let S ← parseSolid S; let pts ← parsePts pts
+    let S ← parseInside S; let pts ← parsePts pts
     pure (bits (inVolumePoints S pts))
   | "chkmask", [S, pts, m] => do
-    let S ← parseSolid S; let pts ← parsePts pts; let m ← parseBits m
+    let S ← parseInside S; let pts ← parsePts pts; let m ← parseBits m
     pure (b01 (checkMask S pts m))
   | "tree", [mode, S, nodes, conns] => do
-    let mode ← parseMode mode; let S ← parseSolid S; let t ← parseTree nodes conns
+    let mode ← parseMode mode; let S ← parseInside S; let t ← parseTree nodes conns
     pure (showTree (pruneByVolume S mode t))
   | "dots", [mode, S, pts, conns] => do
-    let mode ← parseMode mode; let S ← parseSolid S; let pts ← parsePts pts
+    let mode ← parseMode mode; let S ← parseInside S; let pts ← parsePts pts
     let cs ← parseList ";" parsePConn conns
     let r := inVolumeDots S mode ⟨pts, cs⟩
     pure s!"{showNats r.kept}|{showPairs r.conns}"
   | "mesh", [mode, S, verts, faces, conns] => do
-    let mode ← parseMode mode; let S ← parseSolid S; let vs ← parsePts verts
+    let mode ← parseMode mode; let S ← parseInside S; let vs ← parsePts verts
     let fs ← parseList ";" parseFace faces
     let cs ← parseList ";" parsePConn conns
     let r := inVolumeMesh S mode ⟨vs, fs, cs⟩
@@ -165,7 +177,7 @@ def run (cmd : String) (rest : String) : Option String :=
     let ts ← parseList "#" (fun t => match (trim t).splitOn "~" with
       | [n, c] => parseTree n c
       | _ => none) trees
-    pure (showDict showNats (intersectionMatrix (fun t => t.nodes.length) mode (mkDict vols) ts))
+    pure (showDict showNats (intersectionMatrix id (fun t => t.nodes.length) mode (mkDict vols) ts))
   | "snap", [data, ids, qs] => do
     let data ← parsePts data; let ids ← intList? ids; let qs ← parsePts qs
     let one := fun q =>
